@@ -326,9 +326,11 @@ Definition body (t : mtext) (p : tparams) (s : wst) : wst :=
 (* text state after NewImage + SetCharSpacingCompensation + SetTextWrap(false) *)
 Definition tile_t0 (p : tparams) : tstate := set_wrap (set_spacing init_t (pspacing p)) false.
 
+(* the body never reads Inverted: it is computed from the state with the flag cleared *)
 Definition tile_body (t : mtext) (W H shrink border : Z) : list dop :=
-  let p := params t W H shrink border in
-  snd (body t p (tile_t0 p, [])).
+  let t0 := set_inverted t false in
+  let p := params t0 W H shrink border in
+  snd (body t0 p (tile_t0 p, [])).
 
 Definition prologue (inv : bool) (p : tparams) : list op :=
   [OInvert inv; OFillRect 0 0 (pW p) (pH p) false; OSetSpacing (pspacing p); OSetWrap false;
